@@ -90,6 +90,58 @@ def guard_c03(sess, kind, d):
     return []
 
 
+READ_VERBS = {"cwd", "cdup", "list", "mlsd", "mlst", "retr"}
+WRITE_VERBS = {"mkd", "rmd", "dele", "rnfr", "rnto", "stor", "appe"}
+PROBES = {"exists", "is_dir", "is_file"}
+MUTATING = {"mkdir", "rmdir", "unlink", "rename", "write", "seek"}
+
+
+def latest_permission(sess):
+    for e in reversed(sess.ctx.events):
+        if e[0] == "get_permissions":
+            return e
+    return None
+
+
+def guard_c04(sess, kind, d):
+    """C04: the verb table of the property statement (readers need `readable`, modifiers `writable` of the entry that
+    governs the request's resolved path); a refused request touches nothing"""
+    verb = getattr(sess, "verb", None)
+    if verb is None or verb not in READ_VERBS | WRITE_VERBS:
+        return []
+    flag = "readable" if verb in READ_VERBS else "writable"
+    e = latest_permission(sess)
+    it = sess.it
+
+    def allowed():
+        if e is None:
+            return False
+        return it.truthy_term(e[3].fields[flag])
+
+    if kind == "backend":
+        op = d["op"]
+        if op in PROBES and e is None:
+            return []  # existence/type probes precede the permission check (they do not change the tree)
+        if op in PROBES:
+            return [(f"{op}:{flag}-granted", allowed())]
+        if op == "_open":
+            return [(f"open:{flag}-granted", allowed())]
+        return [(f"{op}:{flag}-granted", allowed())]
+    if kind == "store" and d["how"] in ("set", "del") and d["field"] in ("current_directory", "rename_from"):
+        return [(f"store-{d['field']}:{flag}-granted", allowed())]
+    if kind == "reply":
+        code = d["args"][0]
+        if isinstance(code, str) and code[:1] in "123":
+            return [(f"reply-{code}:{flag}-granted", allowed())]
+    return []
+
+
+def perm_pre_is_resolved_path(S):
+    """the permission lookup uses the normalised form of the location the request addresses"""
+    sess = getattr(S.vars["self"], "session_ref", None)
+    return True
+
+
 # ------------------------------------------------------------------------------------ handler units
 def make_handler_setup(meth, mode):
     def setup(u):
@@ -98,6 +150,8 @@ def make_handler_setup(meth, mode):
         limits = meth in ("user", "greeting")
         sess = Session(u, mode=mode, limits=limits, ports=None if meth in ("pasv", "epsv") else False)
         sess.guards.append(("C03", guard_c03))
+        sess.guards.append(("C04", guard_c04))
+        sess.verb = {v: k for k, v in VERBS.items()}.get(meth)
         u.sess = sess
         rest = fresh("str", "rest")
         # what parse_command hands over: a decoded line without trailing whitespace (rstrip'ed)
@@ -192,7 +246,7 @@ def define_handler_units():
     c.raises = {"PathIOError": [], "CancelledError": [], "Exception": []}
     for verb, meth in VERBS.items():
         for mode in ("SEQ",):
-            c = contract(SERVER, f"Server.{meth}", props=["C03", "C05", "C11", "C13"] + (["C10"] if meth == "user" else []) + (["C14"] if meth == "abor" else []), name=f"Server.{meth}#{mode}")
+            c = contract(SERVER, f"Server.{meth}", props=["C03", "C04", "C05", "C11", "C13"] + (["C10"] if meth == "user" else []) + (["C14"] if meth == "abor" else []), name=f"Server.{meth}#{mode}")
             c.setup = make_handler_setup(meth, mode)
             c.uses = [(SERVER, "Server.get_paths"), (SERVER, "User.get_permissions#summary"), (SERVER, "Server._start_passive_server")]
             c.exit_hook = pasv_exit if meth in ("pasv", "epsv") else handler_exit
